@@ -358,7 +358,7 @@ CHECKS["C15"] = dict(
          "with net/http.ReadResponse into exactly one response per served request with the handler's status, headers and body and nothing "
          "else; the connection stays open iff the request did not ask to close and the response is self-delimiting, and is closed only "
          "after the response bytes; no exception on valid input. Non-trivial = >=2 requests, a body-carrying request, a Flush or a chunked response.",
-    required=["bodiless-response-with-content-length-then-request", "handler-closes-body-then-request", "handler-writes-body-where-none-is-allowed", "connection-carried-more-than-1MiB", "unread-body-then-request", "handler-flush", "resp:chunked", "resp:none", "resp:cl", "http/1.0", "req-chunked", "fragmented",
+    required=["resp:chunked-with-trailer", "bodiless-response-with-content-length-then-request", "handler-closes-body-then-request", "handler-writes-body-where-none-is-allowed", "connection-carried-more-than-1MiB", "unread-body-then-request", "handler-flush", "resp:chunked", "resp:none", "resp:cl", "http/1.0", "req-chunked", "fragmented",
               "connection-closed", "connection-kept-open", "channel:sync", "channel:queued"],
     assumptions=["net/http's ReadRequest/ReadResponse are the standard parser", "handlers keep the usual contracts: an explicit Content-Length equals the bytes written; bodiless statuses and HEAD write no body; no chunked responses to HTTP/1.0"],
 )
